@@ -263,6 +263,8 @@ class Dm1:
         number_dtc = int(dtc_length / 4)
 
         # get lamp status
+        # (a new dict: the old one may be the object the application's send callback handed out)
+        self._lamp_status = {}
         self._lamp_status['pl']  = DtcLamp().get_status( self._data[0] & 0x03,        self._data[1] & 0x03)
         self._lamp_status['awl'] = DtcLamp().get_status((self._data[0] >> 2) & 0x03, (self._data[1] >> 2) & 0x03)
         self._lamp_status['rsl'] = DtcLamp().get_status((self._data[0] >> 4) & 0x03, (self._data[1] >> 4) & 0x03)
